@@ -1142,9 +1142,13 @@ func (m *model) ruleContinue(s *report.Sink) {
 		errStores = append(errStores, a)
 	}
 	first := false
+	var inRegion []ssa.Instruction
 	for _, a := range errStores {
 		good := a.kind == "write" && m.isDoneJob(a.base) && m.isResErr(a.store.Val) && m.armOf(a.in) == m.armDone.name
 		rb := m.rootSite(a.in).Block() // where the store happens as seen from the loop (the call, for a store in a helper)
+		if good && inFail(rb) {
+			inRegion = append(inRegion, a.in)
+		}
 		if good && inFail(rb) && m.mustPass(failEntry, inFail, a.in) {
 			first = true
 		}
@@ -1154,6 +1158,9 @@ func (m *model) ruleContinue(s *report.Sink) {
 		if !good {
 			s.Bad("S22", "loop|other write of job.err#"+m.armOf(a.in), m.ipos(a.in), "ScheduledJob.err is written with something other than the received result's error of that job")
 		}
+	}
+	if !first && len(inRegion) > 1 && m.mustPassAny(failEntry, inFail, inRegion) {
+		first = true // recorded separately on each branch of the failure handling: every path passes one of the stores
 	}
 	s.Check(first, "S22", "loop|job.err recorded before the mode branch", m.bpos(failEntry), "late enqueues see the failure", "the failed job's err is not recorded on every path of the failure branch (fail-fast exit, sentinel, ...): a dependent enqueued later would run")
 	// multierr.Append
